@@ -20,7 +20,14 @@ for stack and the binary operations), the element type OF EACH ARGUMENT (equal o
 value range (small numbers for arithmetic; the full range of each type, halves and large magnitudes for the
 operations that only move or compare values), memory layout of the arguments (C, Fortran, strided view, read-only),
 one object passed in two positions, the same call repeated on the same objects, axis / index in every legal form
-(int, NumPy integer scalar, list, integer arrays of several types)."""
+(int, NumPy integer scalar, list, integer arrays of several types); for xarray objects also HOW EACH ARGUMENT STORES ITS
+DIMENSIONS: the names (any, not d0 < d1 < ...), the order (every argument, and each variable of a Dataset, may hold the same
+named dimensions in another order: a .transpose()d field), index coordinates (present / absent, the same labels held in
+another order by some argument), array names / attributes / scalar coordinates, dask-chunked data, arguments with fewer
+dimensions than the first (broadcast by name); the axis of a single-argument reduction by name, by a list of names or by
+position.  xarray matches arguments by dimension NAME and index LABEL: the NumPy reference is taken on the data brought to
+one common order, the result is compared by name (and, where every argument is stored in the same order, also on the order
+of its dimensions).  The named model Backends/Named.v resolves names to axes inside Coq (`check_xcase`)."""
 import importlib.util
 import math
 import warnings
@@ -35,7 +42,8 @@ TRUSTED = [
     "translate/batchable.py (ast translator for backends/__init__.py, arrayapi.py, xarray.py; its marker table is compared with the run-time `batchable` attributes on every run)",
     "OpsCheck.v glue: flat row-major data -> nested tensors, rational comparison with the tolerance the harness supplies",
     "the first sentence of C15 ('= the value NumPy gives') has no theorem: Backends/Ops.v is the exact-arithmetic reference, tied to numpy, to ArrayAPIBackend and to XArrayBackend by value correspondence (sampled)",
-    "numpy 2.x and xarray as installed in /venv",
+    "NamedCheck.v glue: the model's result is re-stored in the observed dimension order (Named.v align) before the comparison; for the variables of a Dataset the order itself is not compared",
+    "numpy 2.x, xarray and dask as installed in /venv (dask-chunked arguments get their own graph keys: xarray's token does not distinguish a C-ordered from a Fortran-ordered array with the same bytes)",
 ]
 ASSUMPTIONS = [
     "values are exact rationals: floating-point rounding, NaN/inf, integer wrap-around and bool arithmetic are outside the model (compared with NumPy directly by the oracle, not with Coq)",
@@ -46,12 +54,14 @@ ASSUMPTIONS = [
     "'every partition into batches' is read as reduce()/_batch_transform batches: a batch of one argument is passed through unchanged (a single argument means 'reduce inside the array' in this library); at least two batches",
     "equality of results treats any two failures as equal (res_eqv): the error type of a shape mismatch may differ between batched and unbatched evaluation",
     "general NumPy broadcasting is not modelled (binary operations: equal shapes or one 0-d/scalar operand; stack/reductions: equal shapes); broadcast cases are compared with NumPy by the oracle only",
-    "xarray objects are modelled by their values; dimension names are mapped to axis numbers by the harness, result dims are checked by the oracle",
+    "xarray objects are modelled as tensors with named axes (Backends/Named.v): arguments are matched by dimension NAME whatever order each stores its dimensions in, and an argument lacking a dimension of the first is broadcast over it; 'the value NumPy gives for the same data' is read on the data brought to one common dimension order (and, for index coordinates, one common label order): that is xarray's data model, positions of a labelled array carry no meaning across arguments",
+    "index labels are outside the Coq model: the harness undoes label permutations (by .sel on the result, by generating the permuted arguments from the unpermuted data) before the comparison in Coq; the oracle compares the implementation by label directly",
+    "the ORDER of the dimensions of an xarray result is demanded only where every argument stores its dimensions in the same order (then: that order); for differently stored arguments the oracle compares by name (the new dimension of stack must still sit at `axis`), the Coq model predicts the first argument's order (DataArray)",
     "take: indices are an int, a NumPy integer scalar, a list of ints or an integer ndarray of any integer type (the documented domain); tuples are not exercised (xarray reads a tuple as a Variable spec)",
 ]
 
 HEADER = """From Coq Require Import List NArith ZArith QArith Qcanon String.
-From EKW Require Import Backends.Tensor Backends.Ops Backends.OpsCheck Backends.Dtype Backends.DtypeCheck.
+From EKW Require Import Backends.Tensor Backends.Ops Backends.OpsCheck Backends.Dtype Backends.DtypeCheck Backends.Named Backends.NamedCheck.
 Import ListNotations.
 Open Scope string_scope.
 """
@@ -71,6 +81,8 @@ STRUCTURAL = {"stack", "concat", "take", "min", "max"}      # never round, whate
 LAYOUTS = ["c", "c", "c", "f", "strided", "reversed", "readonly"]
 IDX_DTYPES = ["int8", "int16", "int32", "int64", "uint8", "uint32"]
 DIMS = ["d0", "d1", "d2", "d3"]
+NAME_POOL = ["x", "y", "lat", "lon", "time", "step", "Z", "a", "d3", "d1", "d0", "number", "level", "new2", "dim_0"]
+MULTI_FORMS = ("multi", "stack", "concat", "bin", "batch")      # forms in which several arrays meet
 
 
 def B():
@@ -149,6 +161,111 @@ def sub_shape(rng, full, ones):
     return t
 
 
+def rank_of(c):
+    return max(len(s) for s in c["shapes"])
+
+
+def names_of(c):
+    """the names of the dimensions, in the order the reference (NumPy on the canonical data) has them"""
+    return list(c.get("names") or DIMS[:rank_of(c)])
+
+
+def perm_of(c, i, var=0):
+    """how argument i (variable `var` of a Dataset) stores its dimensions: held = canonical.transpose(perm)"""
+    ps = c.get("perms_w" if var == 1 else "perms")
+    r = len(c["shapes"][i])
+    return list(ps[i]) if ps and ps[i] is not None else list(range(r))
+
+
+def has_perms(c):
+    return any(perm_of(c, i, v) != list(range(len(c["shapes"][i]))) for v in (0, 1) for i in range(len(c["shapes"])))
+
+
+def has_lperms(c):
+    return any(p != sorted(p) for lp in c.get("lperms") or [] for p in (lp or {}).values())
+
+
+def rand_perm(rng, r, identity=0.35):
+    p = list(range(r))
+    if r >= 2 and rng.random() >= identity:
+        while p == list(range(r)):
+            rng.shuffle(p)
+    return p
+
+
+def gen_labels(rng, n):
+    """index labels of one dimension: distinct, NOT necessarily sorted (ints ascending / shuffled / descending, strings)"""
+    kind = rng.choice(["asc", "asc", "shuffled", "desc", "str"])
+    L = [10 * i + 5 for i in range(n)]
+    if kind == "shuffled":
+        rng.shuffle(L)
+    elif kind == "desc":
+        L.reverse()
+    elif kind == "str":
+        L = [f"m{(7 * i + 3) % 23}" for i in range(n)]
+    return L
+
+
+def decorate_xr(rng, c, perm_p=0.4, multi_arg=None):
+    """xarray objects: how each argument holds its dimensions (names, storage order, index coordinates and the order of
+    their labels, array name / attributes / scalar coordinates, dask chunks).  None of it changes the data."""
+    if c["backend"] == "numpy":
+        return
+    k, n = len(c["shapes"]), rank_of(c)
+    if len(c["shapes"][0]) != n:
+        return
+    multi_arg = (c["form"] in MULTI_FORMS and k >= 2) if multi_arg is None else multi_arg
+    if n >= 1 and rng.random() < 0.35:
+        c["names"] = rng.sample(NAME_POOL, n)
+    if rng.random() < 0.3:
+        c["newdim"] = rng.choice(["new", "N", "aaa", "zzz", "member"])
+    if n >= 2 and rng.random() < perm_p:
+        c["perms"] = [rand_perm(rng, len(s)) for s in c["shapes"]]
+        if c["backend"] == "dataset":
+            c["perms_w"] = [rand_perm(rng, len(s)) for s in c["shapes"]]
+        if not has_perms(c):
+            j = rng.choice([i for i, s in enumerate(c["shapes"]) if len(s) >= 2])
+            c["perms"][j] = rand_perm(rng, len(c["shapes"][j]), identity=0.0)
+    if n >= 1 and rng.random() < 0.3:
+        names, full = names_of(c), list(c["shapes"][0])
+        cd = norm_axis(c["axis"], n) if c["op"] == "concat" else None
+        labels = {}
+        for ax, d in enumerate(names):
+            if rng.random() < 0.7:
+                size = sum(s[ax] for s in c["shapes"]) if ax == cd else full[ax]
+                labels[d] = gen_labels(rng, size)
+        if labels:
+            c["labels"] = labels
+            if multi_arg and rng.random() < 0.45:
+                lps = []
+                for s in c["shapes"]:
+                    lp = {}
+                    off = n - len(s)
+                    for ax, d in enumerate(names):
+                        if d in labels and ax != cd and ax >= off and rng.random() < 0.6:
+                            q = list(range(s[ax - off]))
+                            rng.shuffle(q)
+                            lp[d] = q
+                    lps.append(lp)
+                if any(p != sorted(p) for lp in lps for p in lp.values()):
+                    c["lperms"] = lps
+    if rng.random() < 0.3:
+        c["deco"] = {"names": [rng.choice([None, "t2m", "u", "w", "f%d" % i]) for i in range(k)],
+                     "attrs": [rng.choice([{}, {"units": "K"}, {"units": "m", "i": i}]) for i in range(k)],
+                     "scalar": [rng.choice([0, 6, 12]) for _ in range(k)] if rng.random() < 0.5 else None}
+    if rng.random() < 0.07:
+        c["chunked"] = [rng.random() < 0.7 for _ in range(k)]
+    if c["backend"] == "dataset" and c["form"] == "take" and (c.get("perms") or c.get("labels")):
+        c["dim_by"] = "name"        # an integer dim counts in the Dataset's own order of dimensions, which xarray derives from all its variables
+    if c["form"] == "batch" and c.get("deco") and c["deco"].get("scalar"):
+        # differing scalar coordinates are reduced away inside a batch and kept by a batch of one: outside the property
+        c["deco"]["scalar"] = [c["deco"]["scalar"][0]] * k
+    for i, j in c.get("alias") or []:
+        for key in ("perms", "perms_w", "lperms", "chunked"):
+            if c.get(key):
+                c[key][j] = c[key][i]
+
+
 def gen_case(rng, malformed=False):
     backend = rng.choice(["numpy", "numpy", "dataarray", "dataarray", "dataset"])
     form = rng.choice(["multi", "multi", "single", "single", "stack", "concat", "take", "bin", "bin"])
@@ -169,10 +286,18 @@ def gen_case(rng, malformed=False):
             s = gen_shape(rng, allow_zero=zero and op in ("sum", "prod", "min", "max"))
             c["shapes"] = [s] * k
             c["axis"] = rng.choice([None, None, 0, 1]) if backend == "numpy" else None   # overridden by the code
+            if not malformed and len(s) >= 1 and rng.random() < 0.08:
+                # arguments of fewer dimensions: xarray broadcasts them by name (the first argument has every dimension)
+                c["shapes"] = [list(s)] + [sub_shape(rng, s, backend == "numpy") for _ in range(k - 1)]
+                c["broadcast"] = any(t != s for t in c["shapes"])
         else:
             s = gen_shape(rng, allow_zero=zero and op in ("sum", "prod"), min_rank=rng.choice([0, 1, 1]))
             c["shapes"] = [s]
             c["axis"] = rng.choice([None] + list(range(-len(s), len(s)))) if s else None
+            if backend == "dataarray":
+                c["dim_by"] = rng.choice(["name", "name", "list", "axis"])
+            elif backend == "dataset":
+                c["dim_by"] = rng.choice(["name", "name", "list"])      # Dataset reductions refuse axis=
     elif form == "stack":
         c["op"] = "stack"
         k = rng.randint(1, 6)
@@ -272,6 +397,8 @@ def gen_case(rng, malformed=False):
         c["twice"] = True
     if malformed:
         make_malformed(rng, c)
+    else:
+        decorate_xr(rng, c)
     return c
 
 
@@ -367,6 +494,64 @@ def gen_sweep(rng, rounds):
     return out
 
 
+def gen_named_sweep(rng, rounds):
+    """xarray arguments that store the same named dimensions in different orders, systematically: every reduction and
+    every other operation x DataArray / Dataset x square and non-square shapes (a positional combination of a square
+    field with its transpose has the right shape and the wrong values; of a non-square one it cannot be formed) x
+    which argument is the transposed one (the first, a later one, all)"""
+    out = []
+    shapes = ([2, 2], [3, 3], [2, 3], [3, 1], [2, 2, 2], [2, 3, 2])
+    for _ in range(rounds):
+        for backend in ("dataarray", "dataset"):
+            for form_op in [("multi", op) for op in REDUCTIONS] + [("stack", "stack"), ("concat", "concat"), ("bin", None), ("take", "take"), ("single", None)]:
+                for s in shapes:
+                    form, op = form_op
+                    n = len(s)
+                    k = 1 if form in ("take", "single") else 2 if form == "bin" else rng.randint(2, 4)
+                    op = op or (rng.choice(list(BINARY)) if form == "bin" else rng.choice(REDUCTIONS))
+                    dt = rng.choice(MODEL_DTYPES)
+                    c = {"backend": backend, "form": form, "op": op, "dtype": dt, "dtypes": [dt] * k, "style": "int", "shapes": [list(s)] * k, "axis": None}
+                    if form == "stack":
+                        c["axis"] = rng.randint(-n - 1, n)
+                    elif form in ("concat", "take", "single"):
+                        c["axis"] = rng.randint(-n, n - 1)
+                    if form == "concat":
+                        a = norm_axis(c["axis"], n)
+                        c["shapes"] = [s[:a] + [rng.choice([1, 2, 3])] + s[a + 1:] for _ in range(k)]
+                    if form == "take":
+                        m = s[norm_axis(c["axis"], n)]
+                        kind = rng.choice(["int", "list", "ndarray"])
+                        c.update(idx=rng.randint(-m, m - 1) if kind == "int" else [rng.randint(-m, m - 1) for _ in range(rng.randint(1, 3))],
+                                 idx_kind=kind, idx_dtype="int64", dim_by=rng.choice(["int", "name"]) if backend == "dataarray" else "name")
+                    if form == "single":
+                        c["dim_by"] = rng.choice(["name", "list", "axis"] if backend == "dataarray" else ["name", "list"])
+                    if form == "bin":
+                        c["second"] = "array"
+                    ds = []
+                    for i, sh in enumerate(c["shapes"]):
+                        d = gen_data(rng, math.prod(sh), dt, op, "int")
+                        if op in ("divide", "pow") and i == 1:
+                            d = [abs(x) % 3 + 1 for x in d] if dt.startswith("int") else [float(abs(int(x)) % 3 + 1) for x in d]
+                        if op == "pow" and i == 0 and not is_intlike(dt):
+                            d = [x if x else 1.0 for x in d]
+                        ds.append(d)
+                    c["datas"] = ds
+                    which = rng.choice(["first", "later", "all"]) if k >= 2 else "first"
+                    moved = {"first": [0], "later": [rng.randrange(1, k)] if k >= 2 else [0], "all": list(range(k))}[which]
+                    c["perms"] = [rand_perm(rng, n, identity=0.0) if i in moved else list(range(n)) for i in range(k)]
+                    if which == "all" and len(set(map(tuple, c["perms"]))) == 1 and k >= 2 and n >= 3:
+                        c["perms"][-1] = rand_perm(rng, n, identity=0.0)
+                    if backend == "dataset":
+                        c["perms_w"] = [rand_perm(rng, n) for _ in range(k)]
+                    if rng.random() < 0.3:
+                        c["names"] = rng.sample(NAME_POOL, n)
+                    if rng.random() < 0.3:
+                        c["labels"] = {d: gen_labels(rng, sum(sh[ax] for sh in c["shapes"]) if form == "concat" and ax == norm_axis(c["axis"], n) else s[ax])
+                                       for ax, d in enumerate(names_of(c)) if rng.random() < 0.7}
+                    out.append(c)
+    return out
+
+
 # ----------------------------------------------------------------------------- running
 def relayout(a, how):
     """the same values held differently: Fortran order, a strided view into a larger buffer, a doubly reversed view, read-only"""
@@ -397,19 +582,67 @@ def arrays_of(c, var=0):
     return out
 
 
+def arg_labels(c, i, d):
+    """the index labels argument i carries along dimension d (concat: every argument has its own stretch of them)"""
+    L = (c.get("labels") or {}).get(d)
+    if L is None:
+        return None
+    names = names_of(c)
+    ax = names.index(d)
+    if c["op"] == "concat" and ax == norm_axis(c["axis"], len(names)):
+        off = sum(s[ax] for s in c["shapes"][:i])
+        return L[off: off + c["shapes"][i][ax]]
+    return L
+
+
+def hold(c, i, a, var=0):
+    """canonical ndarray -> the DataArray the caller holds: named dimensions, index coordinates, then -- without changing
+    what value sits at which (name, label) -- the labels in another order, the dimensions in another order, chunks"""
+    import xarray as xr
+    names = names_of(c)
+    dims = names[len(names) - a.ndim:]           # a lower-rank argument has the trailing dimensions
+    coords = {}
+    for ax, d in enumerate(dims):
+        L = arg_labels(c, i, d)
+        if L is not None and len(L) == a.shape[ax]:
+            coords[d] = L
+    da = xr.DataArray(a, dims=dims, coords=coords)
+    deco = c.get("deco")
+    if deco:
+        da.name = deco["names"][i]
+        da.attrs = dict(deco["attrs"][i])
+        if deco.get("scalar"):
+            da = da.assign_coords(member0=deco["scalar"][i])
+    lp = (c.get("lperms") or [None] * (i + 1))[i]
+    if lp:
+        da = da.isel({d: q for d, q in lp.items() if d in dims})
+    perm = perm_of(c, i, var)
+    if perm != list(range(a.ndim)):
+        da = da.transpose(*[dims[q] for q in perm])
+    if (c.get("chunked") or [False] * (i + 1))[i]:
+        # (own graph keys: xarray's token of a chunked array does not see the memory order, a C-ordered and a Fortran-ordered
+        # argument with the same bytes would become ONE dask key and one of them would be read as the other)
+        da = da.chunk({d: 1 for d in da.dims[:1]}, name_prefix=f"c15-arg{i}-var{var}-")
+    return da
+
+
 def wrap(c, arrs):
     """numpy arrays -> back-end objects"""
     import xarray as xr
     b = c["backend"]
     if b == "numpy":
         return arrs
-    n = max(len(s) for s in c["shapes"])
-    das = [xr.DataArray(a, dims=DIMS[n - a.ndim: n]) for a in arrs]       # a lower-rank argument has the trailing dimensions
+    das = [hold(c, i, a) for i, a in enumerate(arrs)]
     if b == "dataarray":
         objs = das
     else:
         arrs2 = arrays_of(c, var=1)
-        objs = [xr.Dataset({"u": d, "w": xr.DataArray(a2, dims=DIMS[n - a2.ndim: n])}) for d, a2 in zip(das, arrs2)]
+        objs = []
+        for i, (d, a2) in enumerate(zip(das, arrs2)):
+            ds = xr.Dataset({"u": d, "w": hold(c, i, a2, var=1)})
+            if c.get("deco"):
+                ds.attrs = dict(c["deco"]["attrs"][i])
+            objs.append(ds)
     for i, j in c.get("alias") or []:
         objs[j] = objs[i]
     return objs
@@ -420,17 +653,25 @@ def call_impl(c, objs):
     f, op, b, ax = c["form"], c["op"], c["backend"], c.get("axis")
     xr_ = b != "numpy"
     rank = len(c["shapes"][0])
+    names = names_of(c)
+    held0 = perm_of(c, 0)                       # the first argument's own order (positions count in it)
     if f == "multi":
         kw = {} if ax is None else {"axis": ax}
         return getattr(bk, op)(*objs, **kw)
     if f == "single":
         if ax is None:
             return getattr(bk, op)(objs[0])
-        return getattr(bk, op)(objs[0], dim=DIMS[norm_axis(ax, rank)]) if xr_ else getattr(bk, op)(objs[0], axis=ax)
+        if not xr_:
+            return getattr(bk, op)(objs[0], axis=ax)
+        d, by = names[norm_axis(ax, rank)], c.get("dim_by", "name")
+        if by == "axis":
+            pos = held0.index(norm_axis(ax, rank))
+            return getattr(bk, op)(objs[0], axis=pos - rank if ax < 0 else pos)
+        return getattr(bk, op)(objs[0], dim=[d] if by == "list" else d)
     if f == "stack":
-        return bk.stack(*objs, dim="new", axis=ax) if xr_ else bk.stack(*objs, axis=ax)
+        return bk.stack(*objs, dim=c.get("newdim", "new"), axis=ax) if xr_ else bk.stack(*objs, axis=ax)
     if f == "concat":
-        return bk.concat(*objs, dim=DIMS[norm_axis(ax, rank)]) if xr_ else bk.concat(*objs, axis=ax)
+        return bk.concat(*objs, dim=names[norm_axis(ax, rank)]) if xr_ else bk.concat(*objs, axis=ax)
     if f == "take":
         idx = c["idx"]
         if c["idx_kind"] == "ndarray":
@@ -439,7 +680,10 @@ def call_impl(c, objs):
             idx = np.dtype(c.get("idx_dtype", "int64")).type(idx)
         dim = ax
         if xr_ and c.get("dim_by") == "name":
-            dim = DIMS[norm_axis(ax, rank)]
+            dim = names[norm_axis(ax, rank)]
+        elif xr_:
+            pos = held0.index(norm_axis(ax, rank))      # an integer dim counts in the array's own order of dimensions
+            dim = pos - rank if ax < 0 else pos
         return bk.take(objs[0], idx, dim=dim)
     if f == "bin":
         second = objs[1]
@@ -452,7 +696,7 @@ def call_impl(c, objs):
 def np_ref(c, arrs):
     f, op, ax = c["form"], c["op"], c.get("axis")
     if f == "multi":
-        return getattr(np, op)(np.stack(arrs), axis=0)
+        return getattr(np, op)(np.stack(np.broadcast_arrays(*arrs) if c.get("broadcast") else arrs), axis=0)
     if f == "single":
         return getattr(np, op)(arrs[0], axis=ax)
     if f == "stack":
@@ -468,14 +712,15 @@ def np_ref(c, arrs):
 
 
 def expected_dims(c):
+    """the dimensions of the result, in the order of the NumPy reference"""
     rank = len(c["shapes"][0])
-    dims = DIMS[:rank]
+    dims = names_of(c)[:rank]
     f, ax = c["form"], c.get("axis")
     if f == "single":
         return [] if ax is None else [d for i, d in enumerate(dims) if i != norm_axis(ax, rank)]
     if f == "stack":
         a = norm_axis(ax, rank + 1)
-        return dims[:a] + ["new"] + dims[a:]
+        return dims[:a] + [c.get("newdim", "new")] + dims[a:]
     if f == "take" and c["idx_kind"] in ("int", "npint"):
         return [d for i, d in enumerate(dims) if i != norm_axis(ax, rank)]
     return dims
@@ -501,12 +746,51 @@ def tol_of(c, res_dtype):
     return eps, eps * (m + 1) ** 2 * 4
 
 
-def unpack(c, r):
+def by_name(c):
+    """the arguments do not all store their dimensions (labels) in the same order: the result is compared by name (label)"""
+    return has_perms(c) or has_lperms(c)
+
+
+def canonical(c, da, exp=None):
+    """one result DataArray -> (values in the order of the reference, dims as returned, (values, dims) as returned with
+    the labels in the canonical order).  Labels: the arguments held the same labels in different orders, the result may
+    have them in any order: select them in the canonical one.  Dimensions: transposed BY NAME to the reference order."""
+    exp = expected_dims(c) if exp is None else exp
+    dims = [str(d) for d in da.dims]
+    if has_lperms(c):
+        names, labels = names_of(c), c.get("labels") or {}
+        cd = names[norm_axis(c["axis"], len(names))] if c["op"] == "concat" else None
+        for d in dims:
+            if d in labels and d != cd and d in da.indexes:
+                da = da.sel({d: labels[d]})
+    raw = np.asarray(da.values)
+    vals = raw
+    if by_name(c) and dims != exp and sorted(dims) == sorted(exp) and len(set(dims)) == len(dims):
+        vals = np.asarray(da.transpose(*exp).values)
+    return vals, dims, (raw, dims)
+
+
+def unpack(c, r, exp=None):
+    """-> [(values, dims | None, (values as returned, dims as returned) | None) per variable]"""
     if c["backend"] == "numpy":
-        return [(np.asarray(r), None)]
+        return [(np.asarray(r), None, None)]
     if c["backend"] == "dataarray":
-        return [(np.asarray(r.values), list(r.dims))]
-    return [(np.asarray(r[v].values), list(r[v].dims)) for v in ("u", "w")]
+        return [canonical(c, r, exp)]
+    return [canonical(c, r[v], exp) for v in ("u", "w")]
+
+
+def dims_ok(c, dims):
+    """every argument stored in the same order: the result has the dimensions of the reference, in that order.  Otherwise:
+    the same dimensions (values were compared by name), and the new dimension of stack at the place asked for."""
+    exp = expected_dims(c)
+    if not by_name(c):
+        return dims == exp
+    if sorted(dims) != sorted(exp):
+        return False
+    if c["form"] == "stack":
+        new = c.get("newdim", "new")
+        return dims.index(new) == exp.index(new)
+    return True
 
 
 def observe_all(c):
@@ -589,17 +873,17 @@ def oracle_values(c, res):
     for n, (kind_n, out_n) in enumerate(allobs):
         again = "" if n == 0 else "second call on the same argument objects: "
         if kind_n == "err":
-            if c.get("broadcast") and c["form"] == "stack" and n == 0:
+            if c.get("broadcast") and c["form"] in ("stack", "multi") and n == 0:
                 res.count("oracle:broadcast-stack-refused(np.stack refuses it too, skipped)")
                 return None, None
             res.fail(sig_of(c) + ":raises", f"{again}{describe(c)} raised {out_n} where numpy returns a value", c)
             return kind, out
         bad = False
-        for v, (got, dims) in enumerate(out_n):
+        for v, (got, dims, _) in enumerate(out_n):
             rk, ref = reference(c, v)
             ok, why, suffix = values_agree(c, got, ref)
-            if ok and dims is not None and dims != expected_dims(c):
-                ok, why = False, f"dims {dims} != expected {expected_dims(c)}"
+            if ok and dims is not None and not dims_ok(c, dims):
+                ok, why = False, f"dims {dims} != expected {expected_dims(c)}" + (" (compared by name)" if by_name(c) else "")
             if not ok:
                 res.fail(sig_of(c) + suffix, f"{again}{describe(c)}: {why}", c)
                 bad = True
@@ -611,7 +895,7 @@ def oracle_values(c, res):
 
 
 def describe(c):
-    extra = {k: c[k] for k in ("axis", "idx", "second", "alias", "layouts") if k in c and c[k] is not None}
+    extra = {k: c[k] for k in ("axis", "idx", "second", "alias", "layouts", "dim_by", "names", "newdim", "perms", "perms_w", "labels", "lperms", "deco", "chunked", "broadcast") if k in c and c[k] is not None}
     dts = dtypes_of(c)
     dt = dts[0] if len(set(dts)) == 1 else "types " + ",".join(dts)
     return f"backends.{c['op']} [{c['backend']}, {c['form']}, {dt}, shapes {c['shapes']}, {extra}]"
@@ -684,11 +968,12 @@ def conversion_exact(c):
     return True
 
 
-def in_model(c, kind, out):
+def in_model(c, kind, out, named=False):
     """the model's domain: the modelled element types; arithmetic only where nothing wraps or rounds away (small values
-    of the signed and floating types), finite results, integral exponents; no broadcasting"""
+    of the signed and floating types), finite results, integral exponents; no broadcasting by position (the named model
+    broadcasts by dimension name: named=True)"""
     dts = dtypes_of(c)
-    if any(dt not in COQ_DTYPE for dt in dts) or c.get("broadcast"):
+    if any(dt not in COQ_DTYPE for dt in dts) or (c.get("broadcast") and not named):
         return False
     moving = c["op"] in STRUCTURAL
     if not moving and any(dt in EXTRA_DTYPES for dt in dts):
@@ -696,7 +981,7 @@ def in_model(c, kind, out):
     if not conversion_exact(c):
         return False
     if kind == "ok":
-        for got, _ in out:
+        for got, *_ in out:
             if got.dtype.kind not in ("iufb" if moving else "iuf") or not np.all(np.isfinite(got.astype(np.float64))):
                 return False
     if c["op"] == "pow" and any(not float(x).is_integer() for x in c["datas"][1]):
@@ -762,6 +1047,60 @@ def cterm(c, kind, got, var=0):
     return f"(({ccall(c, var)}, {cobs(kind, got)}, ({frt.numerator},{frt.denominator})%Z, ({fat.numerator},{fat.denominator})%Z), ({ds}, {od}, {cseq(c)}))"
 
 
+def cnames(l):
+    return "[" + "; ".join(cstr(str(x)) for x in l) + "]"
+
+
+def cheld(c, var=0):
+    """the arguments as the caller holds them, for the named model: each with its own dimension names in its own storage
+    order (index labels are not modelled: the canonical label order is emitted)"""
+    names = names_of(c)
+    out = []
+    for i, a in enumerate(arrays_of(c, var)):
+        dims = names[len(names) - a.ndim:]
+        perm = perm_of(c, i, var)
+        h = a.transpose(perm) if a.ndim else a
+        out.append(f"(xa {cnames([dims[q] for q in perm])} {ctensor(h.shape, h.reshape(-1).tolist())})")
+    return out
+
+
+def cxcall(c, var=0):
+    ts = cheld(c, var)
+    f, op, ax = c["form"], c["op"], c.get("axis")
+    names, rank = names_of(c), len(c["shapes"][0])
+    if f == "multi":
+        return f"XReduce {cstr(op)} {clist(ts)} None"
+    if f == "single":
+        d = "None" if ax is None else f"(Some {cstr(names[norm_axis(ax, rank)])})"
+        return f"XReduce {cstr(op)} {clist(ts)} {d}"
+    if f == "stack":
+        return f"XStack {clist(ts)} {cstr(c.get('newdim', 'new'))} {cz(ax)}"
+    if f == "concat":
+        return f"XConcat {clist(ts)} {cstr(names[norm_axis(ax, rank)])}"
+    if f == "take":
+        idx = c["idx"]
+        i = f"(inl {cz(idx)})" if c["idx_kind"] in ("int", "npint") else "(inr [" + ";".join(str(int(x)) for x in idx) + "]%Z)"
+        if c.get("dim_by") == "name" or c["backend"] == "dataset":      # a Dataset counts positions in ITS order of dimensions
+            d = f"(inl {cstr(names[norm_axis(ax, rank)])})"
+        else:
+            pos = perm_of(c, 0).index(norm_axis(ax, rank))
+            d = f"(inr {cz(pos - rank if ax < 0 else pos)})"
+        return f"XTake {ts[0]} {i} {d}"
+    return f"XBin {cstr(BINARY[op])} {ts[0]} {ts[1]}"
+
+
+def cxterm(c, raw, var=0):
+    """(call on the held arguments, observed dims, strict order?, observed values in the order returned, tolerances)"""
+    got, dims = raw
+    exact = is_exact(c, got)
+    rt, at = (0.0, 0.0) if exact else tol_of(c, got.dtype)
+    if c["op"] == "std":
+        rt, at = rt * 8, at * 8
+    frt, fat = Fraction(rt), Fraction(at)
+    strict = "true" if c["backend"] == "dataarray" else "false"
+    return f"({cxcall(c, var)}, {cnames(dims)}, {strict}, {cobs('ok', got)}, ({frt.numerator},{frt.denominator})%Z, ({fat.numerator},{fat.denominator})%Z)"
+
+
 # ----------------------------------------------------------------------------- batch law on the implementation
 def runtime_marked():
     bk = B()
@@ -821,6 +1160,7 @@ def gen_batch_case(rng, name):
     c["partition"] = gen_partition(rng, k, ordered=(name in ("concat", "stack")))
     if rng.random() < 0.25:
         c["layouts"] = [rng.choice(LAYOUTS) for _ in range(k)]
+    decorate_xr(rng, c, perm_p=0.5)
     return c
 
 
@@ -834,16 +1174,13 @@ def batch_call(c, objs):
         if c["backend"] == "numpy":
             kw = {"axis": ax if ax is not None else 0}
         else:
-            kw = {"dim": DIMS[norm_axis(ax, rank)]} if name == "concat" else {"dim": "new"}
+            kw = {"dim": names_of(c)[norm_axis(ax, rank)]} if name == "concat" else {"dim": c.get("newdim", "new")}
     return f(*objs, **kw)
 
 
 def plain(c, r):
-    if c["backend"] == "numpy":
-        return [np.asarray(r)]
-    if c["backend"] == "dataarray":
-        return [np.asarray(r.values)]
-    return [np.asarray(r[v].values) for v in ("u", "w")]
+    """the values of a result; arguments held in different dimension / label orders: brought to the canonical order by name"""
+    return [vals for vals, _, _ in unpack(c, r, exp=names_of(c)[:len(c["shapes"][0])])]
 
 
 def oracle_batch(c, res):
@@ -898,7 +1235,8 @@ def translator_markers(ctx=None):
 
 # ----------------------------------------------------------------------------- driver
 def key_of(c):
-    return (c["backend"], c["op"], c["form"], tuple(map(tuple, c["shapes"])), str(c.get("axis")), str(c.get("idx")), tuple(dtypes_of(c)), str(c.get("partition")))
+    return (c["backend"], c["op"], c["form"], tuple(map(tuple, c["shapes"])), str(c.get("axis")), str(c.get("idx")), tuple(dtypes_of(c)), str(c.get("partition")),
+            str(c.get("perms")), str(c.get("perms_w")))
 
 
 def nontrivial(c):
@@ -920,8 +1258,23 @@ def run_cases(ctx, res, cases, acc):
                 res.count("held:" + flag)
         if nontrivial(c):
             res.nontrivial_keys.add(key_of(c))
+        if c["backend"] != "numpy":
+            for flag in ("names", "perms", "labels", "lperms", "deco", "chunked"):
+                if c.get(flag):
+                    res.count("held:xarray:" + flag)
+            if has_perms(c) and c["form"] in MULTI_FORMS:
+                res.count("held:xarray:arguments store their dimensions in different orders")
         if kind is None:
             continue
+        if c["backend"] != "numpy" and kind == "ok" and in_model(c, kind, out, named=True):
+            acc["xseen"] = acc.get("xseen", 0) + 1
+        if (c["backend"] != "numpy" and kind == "ok" and in_model(c, kind, out, named=True)
+                and (has_perms(c) or c.get("names") or c.get("broadcast") or c.get("dim_by") in ("axis", "int") or acc["xseen"] % 3 == 0)):
+            # the named model: the arguments as held, names resolved inside Coq (every case in which the names matter,
+            # a third of the others)
+            for v, (_, _, raw) in enumerate(out):
+                acc["xterms"].append(cxterm(c, raw, v))
+                acc["xmetas"].append(c)
         if not in_model(c, kind, out if kind == "ok" else []):
             res.count("correspondence:outside-model-domain(oracle only)")
             # the element type of the result is predicted by the model even where the values are not (wrap-around, rounding, broadcasting)
@@ -934,7 +1287,7 @@ def run_cases(ctx, res, cases, acc):
             acc["terms"].append(cterm(c, "err", out))
             acc["metas"].append(c)
         else:
-            for v, (got, _) in enumerate(out):
+            for v, (got, *_) in enumerate(out):
                 acc["terms"].append(cterm(c, "ok", got, v))
                 acc["metas"].append(c)
         if len(res.samples) < 4 and nontrivial(c) and c["form"] in ("multi", "concat", "take"):
@@ -948,10 +1301,13 @@ def check_in_coq(res, acc):
     if acc["terms"]:
         jobs.append(("check_case_d", acc["terms"], acc["metas"], 400, "val",
                      "Coq model (Backends/Ops.v apply, Backends/Dtype.v element types) disagrees with backends.{op} on {d}"))
+    if acc.get("xterms"):
+        jobs.append(("check_xcase", acc["xterms"], acc["xmetas"], 300, "xr",
+                     "Coq model (Backends/Named.v xr_apply: arguments matched by dimension name) disagrees with backends.{op} on {d}"))
     if acc["dterms"]:
         jobs.append(("check_dtype_only", acc["dterms"], acc["dmetas"], 2000, "dt",
                      "Coq model (Backends/Dtype.v result_dtype) disagrees with backends.{op} on the element type of the result of {d}"))
-    with ThreadPoolExecutor(max_workers=2) as ex:
+    with ThreadPoolExecutor(max_workers=3) as ex:
         outs = list(ex.map(lambda j: coq_results("C15", HEADER, j[1], j[0], shard=j[3], tag=j[4]), jobs))
     for (checker, terms, metas, _, _, msg), (rs, logs) in zip(jobs, outs):
         res.corr_checked += len(rs)
@@ -999,8 +1355,8 @@ def run(ctx, res):
     rng2 = ctx.sub_rng("malformed")
     bad = [gen_case(rng2, malformed=True) for _ in range(ctx.n(150, 3000))]
     bad = [c for c in bad if c.get("malformed")]
-    sweep = gen_sweep(ctx.sub_rng("sweep"), ctx.n(1, 8))
-    acc = {"terms": [], "metas": [], "dterms": [], "dmetas": []}
+    sweep = gen_sweep(ctx.sub_rng("sweep"), ctx.n(1, 8)) + gen_named_sweep(ctx.sub_rng("named"), ctx.n(1, 10))
+    acc = {"terms": [], "metas": [], "dterms": [], "dmetas": [], "xterms": [], "xmetas": []}
     run_cases(ctx, res, cases, acc)
     run_cases(ctx, res, sweep, acc)
     run_cases(ctx, res, bad, acc)
@@ -1025,7 +1381,7 @@ def search(ctx, res):
                 oracle_batch(gen_batch_case(rng, name), r2)
                 if r2.failures:
                     return r2.failures[0]
-        for c in gen_sweep(rng, 1):
+        for c in gen_sweep(rng, 1) + gen_named_sweep(rng, 2):
             oracle_values(c, r2)
             if r2.failures:
                 return r2.failures[0]
